@@ -10,10 +10,10 @@
 //! table and the library's getters/setters, shared with C08 and C09.
 
 use crate::fw::{CaseResult, Cx, Fail, Tier};
-use crate::gen::summary::{self as gs, Op};
+use crate::gen::summary::{self as gs, Obs, ObsMode, Op, Step};
 use crate::oracle::summary::{self as os, Entry, Kind, Val, NVARS, VARS};
 use crate::rng::hash_strs;
-use pkgsrc::summary::{MissingVariable, Summary, SummaryError};
+use pkgsrc::summary::{MissingVariable, Summary, SummaryError, SummaryStream};
 use std::str::FromStr;
 
 // ---------------------------------------------------------------------------
@@ -218,46 +218,220 @@ pub fn show_entry(m: &Entry) -> String {
 
 const HISTORIES: usize = 5;
 
-fn check_model(ev: &mut crate::fw::Ev, m: &Entry, hists: &[Vec<Op>]) -> CaseResult {
-    let want = m.print();
-    let mut texts: Vec<String> = vec![];
-    for (h, ops) in hists.iter().enumerate() {
-        // an independent instance: its own hash seed
-        let mut sum = Summary::new();
-        for op in ops {
-            apply(&mut sum, op);
-            match op {
-                Op::Set(v, _) => ev.count(&format!("var/{}/set", VARS[*v].name)),
-                Op::Push(v, _) => ev.count(&format!("var/{}/push", VARS[*v].name)),
+/// Where a history starts.
+pub enum Start<'a> {
+    /// `Summary::new()`
+    New,
+    /// `Summary::default()`
+    Default,
+    /// the result of parsing the canonical text of a complete entry
+    Parsed(&'a Entry),
+}
+
+fn renders(o: Obs) -> bool {
+    matches!(o, Obs::Print | Obs::PrintTwice | Obs::StreamPrint | Obs::CloneDrop)
+}
+
+/// Execute a history with interleaved observation calls on one instance.
+/// Every observation is compared with the model *as it is at that point*;
+/// returns the instance and the model state at the end.
+pub fn run_steps(
+    ev: &mut crate::fw::Ev,
+    label: &str,
+    start: &Start,
+    steps: &[Step],
+) -> Result<(Summary, Entry), Fail> {
+    let (mut sum, mut cur) = match start {
+        Start::New => (Summary::new(), Entry::new()),
+        Start::Default => (Summary::default(), Entry::new()),
+        Start::Parsed(b) => {
+            let sum = Summary::from_str(&b.print())
+                .map_err(|e| Fail::from(format!("{label}: the canonical start text does not parse: {e:?}")))?;
+            (sum, (*b).clone())
+        }
+    };
+    // originals left behind by clone-and-continue, with the text they must still print
+    let mut kept: Vec<(Summary, String, usize)> = vec![];
+    let mut prev_rendered = false;
+    for (k, st) in steps.iter().enumerate() {
+        match st {
+            Step::Mut(op) => {
+                let present = cur.is_set(op.var());
+                match op {
+                    Op::Set(v, val) => {
+                        ev.count(&format!("var/{}/set", VARS[*v].name));
+                        if prev_rendered && present {
+                            ev.count("interleave/set_present_right_after_print");
+                        }
+                        cur.set(*v, val.clone());
+                    }
+                    Op::Push(v, line) => {
+                        ev.count(&format!("var/{}/push", VARS[*v].name));
+                        if prev_rendered {
+                            ev.count(if present {
+                                "interleave/push_present_right_after_print"
+                            } else {
+                                "interleave/push_absent_right_after_print"
+                            });
+                        }
+                        cur.push(*v, line);
+                    }
+                }
+                apply(&mut sum, op);
+                prev_rendered = false;
+            }
+            Step::Obs(o) => {
+                ev.count(&format!("obs/{}", o.name()));
+                if renders(*o) {
+                    prev_rendered = true;
+                }
+                let at = || format!("{label}, observation <{}> after {k} of {} steps", o.name(), steps.len());
+                match o {
+                    Obs::Print => {
+                        let t = sum.to_string();
+                        ev.eval();
+                        let want = cur.print();
+                        if t != want {
+                            return Err(format!(
+                                "{}: the text printed differs from the values set so far: {}",
+                                at(),
+                                text_diff(&t, &want)
+                            )
+                            .into());
+                        }
+                    }
+                    Obs::PrintTwice => {
+                        let t1 = format!("{}", sum);
+                        let t2 = format!("{}", sum);
+                        ev.evals(2);
+                        let want = cur.print();
+                        if t1 != want || t2 != want {
+                            let bad = if t1 != want { &t1 } else { &t2 };
+                            return Err(format!(
+                                "{}: the text printed differs from the values set so far: {}",
+                                at(),
+                                text_diff(bad, &want)
+                            )
+                            .into());
+                        }
+                    }
+                    Obs::Getters => {
+                        ev.eval();
+                        same_values(&at(), &sum, &cur)?;
+                    }
+                    Obs::IsCompleted => {
+                        let done = sum.is_completed();
+                        ev.eval();
+                        if done != cur.is_complete() {
+                            return Err(format!(
+                                "{}: is_completed() = {done} with {} of the eleven set",
+                                at(),
+                                os::REQUIRED.len() - cur.missing().len()
+                            )
+                            .into());
+                        }
+                    }
+                    Obs::CloneContinue if kept.len() < 3 => {
+                        let c = sum.clone();
+                        let old = std::mem::replace(&mut sum, c);
+                        kept.push((old, cur.print(), k));
+                    }
+                    Obs::CloneContinue | Obs::CloneDrop => {
+                        let c = sum.clone();
+                        let t = c.to_string();
+                        ev.eval();
+                        let want = cur.print();
+                        if t != want {
+                            return Err(format!(
+                                "{}: a clone prints a text different from the values set so far: {}",
+                                at(),
+                                text_diff(&t, &want)
+                            )
+                            .into());
+                        }
+                    }
+                    Obs::Derived => {
+                        let _ = format!("{:?}", sum);
+                        let _ = sum.pkgbase();
+                        let _ = sum.pkgversion();
+                        let _ = sum.description_as_str();
+                    }
+                    Obs::StreamPrint => {
+                        let mut ss = SummaryStream::new();
+                        ss.entries_mut().push(std::mem::take(&mut sum));
+                        let t = ss.to_string();
+                        sum = ss.entries_mut().pop().unwrap_or_default();
+                        // compared only for complete entries (a stream never holds others)
+                        if cur.is_complete() {
+                            ev.eval();
+                            let want = format!("{}\n", cur.print());
+                            if t != want {
+                                return Err(format!(
+                                    "{}: a SummaryStream holding just this entry prints differently: {}",
+                                    at(),
+                                    text_diff(&t, &want)
+                                )
+                                .into());
+                            }
+                        }
+                    }
+                }
             }
         }
-        ev.count("histories");
-        ev.max("max/history_len", ops.len() as u64);
-        // getters after the history
+    }
+    for (old, want, k) in &kept {
+        let t = old.to_string();
         ev.eval();
-        same_values(&format!("history {h} ({} calls)", ops.len()), &sum, m)?;
-        // printed form depends only on the values
-        let t = sum.to_string();
-        ev.eval();
-        if t != want {
+        if t != *want {
             return Err(format!(
-                "history {h} prints a text different from print(M): {}",
-                text_diff(&t, &want)
+                "{label}: the instance cloned after step {k} changed when its clone was modified: {}",
+                text_diff(&t, want)
             )
             .into());
         }
-        // printing twice gives the same text
-        let t2 = format!("{}", sum);
-        ev.eval();
-        if t2 != t {
-            return Err(format!("history {h}: two prints differ: {}", text_diff(&t2, &t)).into());
-        }
-        // is_completed: M has all eleven
-        ev.eval();
-        if !sum.is_completed() {
-            return Err(format!("history {h}: is_completed() is false although all eleven are set").into());
-        }
-        texts.push(t);
+    }
+    Ok((sum, cur))
+}
+
+/// The end-of-history observations of one instance against the final model.
+fn finish(ev: &mut crate::fw::Ev, label: &str, sum: &Summary, m: &Entry, want: &str) -> Result<String, Fail> {
+    // getters after the history
+    ev.eval();
+    same_values(label, sum, m)?;
+    // printed form depends only on the values
+    let t = sum.to_string();
+    ev.eval();
+    if t != want {
+        return Err(format!("{label} prints a text different from print(M): {}", text_diff(&t, want)).into());
+    }
+    // printing twice gives the same text
+    let t2 = format!("{}", sum);
+    ev.eval();
+    if t2 != t {
+        return Err(format!("{label}: two prints differ: {}", text_diff(&t2, &t)).into());
+    }
+    ev.eval();
+    if sum.is_completed() != m.is_complete() {
+        return Err(format!(
+            "{label}: is_completed() is {} with {} of the eleven set",
+            sum.is_completed(),
+            os::REQUIRED.len() - m.missing().len()
+        )
+        .into());
+    }
+    Ok(t)
+}
+
+fn check_model(ev: &mut crate::fw::Ev, m: &Entry, hists: &[Vec<Step>]) -> CaseResult {
+    let want = m.print();
+    let mut texts: Vec<String> = vec![];
+    for (h, steps) in hists.iter().enumerate() {
+        // an independent instance: its own hash seed
+        let label = format!("history {h} ({} steps)", steps.len());
+        let (sum, _) = run_steps(ev, &label, if h == 4 { &Start::Default } else { &Start::New }, steps)?;
+        ev.count("histories");
+        ev.max("max/history_len", steps.len() as u64);
+        texts.push(finish(ev, &label, &sum, m, &want)?);
     }
     // history independence, observation against observation
     for (h, t) in texts.iter().enumerate().skip(1) {
@@ -322,6 +496,7 @@ fn check_model(ev: &mut crate::fw::Ev, m: &Entry, hists: &[Vec<Op>]) -> CaseResu
     }
     let awkward = m.vals.iter().flatten().filter(|v| gs::awkward_val(v)).count();
     ev.max("max/optional_set", m.optional_set() as u64);
+    ev.max("max/entry_bytes", want.len() as u64);
     if awkward > 0 {
         ev.count("models/with_awkward_value");
     }
@@ -331,15 +506,43 @@ fn check_model(ev: &mut crate::fw::Ev, m: &Entry, hists: &[Vec<Op>]) -> CaseResu
     Ok(())
 }
 
-/// HISTORIES call histories realising `m`.  The generator is checked against
-/// the model here, outside any case body, so that a generator bug stops the
-/// harness instead of being reported as a finding about the library.
-fn histories(r: &mut crate::rng::Rng, m: &Entry) -> Vec<Vec<Op>> {
-    let hists: Vec<Vec<Op>> = (0..HISTORIES).map(|_| gs::history(r, m)).collect();
-    for h in &hists {
-        assert!(gs::replay_history(h) == *m, "harness bug: history does not realise its model");
+/// A history that starts from a *parsed* (or otherwise pre-filled) entry and
+/// goes on mutating it: the end state is the start entry overlaid with the
+/// calls, known from the model replay.
+fn check_continued(ev: &mut crate::fw::Ev, base: &Entry, steps: &[Step], fin: &Entry) -> CaseResult {
+    let want = fin.print();
+    let label = format!("history of {} steps continuing a parsed entry", steps.len());
+    let (sum, _) = run_steps(ev, &label, &Start::Parsed(base), steps)?;
+    ev.count("histories/continued_after_parse");
+    let t = finish(ev, &label, &sum, fin, &want)?;
+    let parsed = Summary::from_str(&t).map_err(|e| Fail::from(format!("the printed text does not parse: {e:?}")))?;
+    ev.eval();
+    same_values("parse(print) after continuing a parsed entry", &parsed, fin)?;
+    if fin.optional_set() > 0 {
+        ev.nontrivial(hash_strs(&[want.as_bytes(), base.print().as_bytes()]));
     }
-    hists
+    Ok(())
+}
+
+/// HISTORIES call histories realising `m`, with observation calls
+/// interleaved in all but the first.  The generator is checked against the
+/// model here, outside any case body, so that a generator bug stops the
+/// harness instead of being reported as a finding about the library.
+fn histories(r: &mut crate::rng::Rng, m: &Entry) -> Vec<Vec<Step>> {
+    // a print after every single call is expensive: one model in four
+    let dense = if r.chance(1, 4) { ObsMode::Dense } else { ObsMode::None };
+    let modes: [ObsMode; HISTORIES] = [ObsMode::None, ObsMode::Sparse, ObsMode::AroundLists, dense, ObsMode::Sparse];
+    let mut out = vec![];
+    for mode in modes {
+        let h = gs::history(r, m);
+        assert!(gs::replay_history(&h) == *m, "harness bug: history does not realise its model");
+        out.push(gs::observed(r, &h, mode));
+    }
+    out
+}
+
+fn show_steps(steps: &[Step]) -> String {
+    steps.iter().map(|o| o.show()).collect::<Vec<_>>().join("; ")
 }
 
 pub fn run(cx: &mut Cx) {
@@ -356,6 +559,20 @@ pub fn run(cx: &mut Cx) {
         cx.ev.require(&format!("value_class/{c}"));
     }
     cx.ev.require("order/pkg_options_and_pkgname");
+    for o in gs::OBS_ALL {
+        cx.ev.require(&format!("obs/{}", o.name()));
+    }
+    for k in [
+        "interleave/push_present_right_after_print",
+        "interleave/push_absent_right_after_print",
+        "interleave/set_present_right_after_print",
+        "histories/continued_after_parse",
+        "workload/typed_sweep",
+        "workload/long_values",
+    ] {
+        cx.ev.require(k);
+    }
+    gs::selfcheck_dicts();
 
     // (a) seeded model entries, 5 histories each
     let n = cx.per_shard(16, 4_000, 64_000, 640_000);
@@ -370,7 +587,7 @@ pub fn run(cx: &mut Cx) {
                     "model {} with {} histories, e.g. [{}]",
                     show_entry(&m),
                     hists.len(),
-                    hists[0].iter().map(|o| o.show()).collect::<Vec<_>>().join("; ")
+                    show_steps(&hists[1])
                 )
             },
             |ev| {
@@ -406,7 +623,7 @@ pub fn run(cx: &mut Cx) {
                 match VARS[var].kind {
                     Kind::S => m.set(var, Val::S(special)),
                     _ => {
-                        let mut l = gs::list(&mut r);
+                        let mut l = gs::list_for(&mut r, var);
                         let at = r.below(l.len());
                         l[at] = special;
                         m.set(var, Val::A(l));
@@ -426,6 +643,159 @@ pub fn run(cx: &mut Cx) {
                     },
                 );
             }
+        }
+    }
+
+    // (b2) typed values: every value of every variable's dictionary of
+    // plausible real-world content (paths, package names, patterns, URLs,
+    // dates, numbers ...), every generic special token and every variable
+    // name, plain and decorated (BOM / "./" / "../../" prefix, ".tgz" / "/" /
+    // blank suffix, case change, quotes ...), in every string and multi-line
+    // variable.  Enumerated, shared out over the shards.
+    {
+        let rounds = cx.pick_tier(0u64, 1, 1, 6);
+        let mut r = cx.stream("typed-sweep");
+        let mut case = 0u64;
+        let mini = cx.tier == Tier::Mini;
+        for round in 0..rounds.max(1) {
+            for var in 0..NVARS {
+                if VARS[var].kind == Kind::I {
+                    continue;
+                }
+                let own = gs::typed_dict(var);
+                let names: Vec<String> = (0..NVARS)
+                    .flat_map(|v| [VARS[v].name.to_string(), format!("{}=", VARS[v].name), VARS[v].name.to_lowercase()])
+                    .collect();
+                // (value, decoration) pairs
+                let mut todo: Vec<(String, usize)> = vec![];
+                for v in own {
+                    for k in 0..gs::NDECOR {
+                        todo.push((v.to_string(), k));
+                    }
+                }
+                for v in gs::T_GENERIC.iter().map(|x| x.to_string()).chain(names) {
+                    todo.push((v.clone(), 0));
+                    todo.push((v, 1 + ((case as usize + round as usize * 7) % (gs::NDECOR - 1))));
+                    case += 1;
+                }
+                // other variables' dictionaries reach this variable too, sampled
+                for other in 0..NVARS {
+                    let d = gs::typed_dict(other);
+                    if other != var && !d.is_empty() {
+                        todo.push((d[(case as usize + var) % d.len()].to_string(), 0));
+                        case += 1;
+                    }
+                }
+                for (k, (base, decor)) in todo.into_iter().enumerate() {
+                    case += 1;
+                    if !cx.mine(case) || (mini && k % 97 != 0) {
+                        continue;
+                    }
+                    let special = gs::decorate(&base, decor);
+                    let mut m = gs::model(&mut r, false, 1, 3);
+                    match VARS[var].kind {
+                        Kind::S => m.set(var, Val::S(special.clone())),
+                        _ => {
+                            let mut l = gs::list_for(&mut r, var);
+                            let at = r.below(l.len());
+                            l[at] = special.clone();
+                            m.set(var, Val::A(l));
+                        }
+                    }
+                    let hists = histories(&mut r, &m);
+                    cx.check(
+                        || format!("typed value {special:?} in {}: model {}", VARS[var].name, show_entry(&m)),
+                        |ev| {
+                            ev.count("workload/typed_sweep");
+                            ev.count(&format!("typed/{}", VARS[var].name));
+                            if decor != 0 {
+                                ev.count("typed/decorated");
+                            }
+                            check_model(ev, &m, &hists)
+                        },
+                    );
+                }
+            }
+        }
+    }
+
+    // (b3) long values: lengths around powers of two and other plausible
+    // fixed limits, characters of one width at every byte alignment.
+    {
+        let n = cx.per_shard(2, 200, 3_000, 30_000);
+        let mut r = cx.stream("long-values");
+        for k in 0..n {
+            let mut m = gs::model(&mut r, false, 1, 3);
+            let svars: Vec<usize> = (0..NVARS).filter(|&v| VARS[v].kind != Kind::I).collect();
+            let var = svars[(k as usize) % svars.len()];
+            let width = [2usize, 3, 4, 0, 1][(k as usize / svars.len()) % 5];
+            let lead = r.below(5);
+            let limit = gs::LIMITS[r.below(gs::LIMITS.len())];
+            let limit = if cx.tier == Tier::Mini { limit.min(256) } else { limit };
+            // the value itself, or the whole line "VAR=value", is around the limit
+            let len = match r.below(3) {
+                0 => limit + r.below(9),
+                1 => (limit + r.below(9)).saturating_sub(VARS[var].name.len() + 1 + 4).max(8),
+                _ => limit.saturating_sub(r.below(9)).max(8),
+            };
+            let long = gs::aligned_text(&mut r, width, lead, len);
+            match VARS[var].kind {
+                Kind::S => m.set(var, Val::S(long)),
+                _ => {
+                    let mut l = gs::list_for(&mut r, var);
+                    let at = r.below(l.len());
+                    l[at] = long;
+                    m.set(var, Val::A(l));
+                }
+            }
+            let hists = histories(&mut r, &m);
+            cx.check(
+                || format!("long value ({len} bytes, {width}-byte characters after {lead}) in {}: model {}", VARS[var].name, show_entry(&m)),
+                |ev| {
+                    ev.count("workload/long_values");
+                    ev.max("max/value_bytes", len as u64);
+                    check_model(ev, &m, &hists)
+                },
+            );
+        }
+    }
+
+    // (d) histories that continue a parsed entry: parse the canonical text of
+    // a complete entry B, then go on with set_*/push_* calls (and observation
+    // calls in between); the end state is B overlaid with the calls.
+    {
+        let n = cx.per_shard(4, 600, 10_000, 100_000);
+        let mut r = cx.stream("continued");
+        for k in 0..n {
+            let base = gs::model(&mut r, k % 4 == 0, 1, 2);
+            let m = gs::model(&mut r, false, 1, 3);
+            let mut ops = gs::history(&mut r, &m);
+            // mostly a short continuation: a handful of calls on a parsed entry
+            if k % 3 != 0 {
+                let keep = r.range(1, 6.min(ops.len()));
+                r.shuffle(&mut ops);
+                ops.truncate(keep);
+            }
+            let mut fin = base.clone();
+            for op in &ops {
+                match op {
+                    Op::Set(v, val) => fin.set(*v, val.clone()),
+                    Op::Push(v, s) => fin.push(*v, s),
+                }
+            }
+            let mode = [ObsMode::Dense, ObsMode::AroundLists, ObsMode::Sparse, ObsMode::None][(k % 4) as usize];
+            let mut steps = gs::observed(&mut r, &ops, mode);
+            // half of the time the parsed entry is printed before the first call
+            if k % 2 == 0 {
+                steps.insert(0, Step::Obs(Obs::Print));
+            }
+            cx.check(
+                || format!("parsed entry {} continued with [{}]", show_entry(&base), show_steps(&steps)),
+                |ev| {
+                    ev.count("workload/continued");
+                    check_continued(ev, &base, &steps, &fin)
+                },
+            );
         }
     }
 
